@@ -65,6 +65,8 @@ pub enum OrderRes<F: Flavour + ?Sized> {
     Edges(Vec<F::Edge>),
 }
 pub type Attrs = Option<Vec<(String, String)>>;
+/// panic message prefix used when a second terminal call on the same search object answers differently
+pub const REPEATED_CALL_DIFFERS: &str = "REPEATED-CALL-DIFFERS";
 
 pub trait Flavour: 'static {
     const NAME: &'static str;
@@ -200,7 +202,20 @@ macro_rules! search_body {
         }
         match cfg.term {
             Term::Search => SearchRes::Node(b.search()),
-            Term::Path => SearchRes::Path(wrap_path!(b.search_path())),
+            Term::Path => {
+                let first = b.search_path();
+                if kind == 0 {
+                    // search_path(&mut self) may be called again on the same search object:
+                    // without a closure the second answer must be the first one
+                    let second = b.search_path();
+                    let a: Option<Vec<Tri>> = first.as_ref().map(|p| p.iter_edges().map(|e| (*e.0.key(), *e.1.key(), e.2)).collect());
+                    let c: Option<Vec<Tri>> = second.as_ref().map(|p| p.iter_edges().map(|e| (*e.0.key(), *e.1.key(), e.2)).collect());
+                    if a != c {
+                        panic!("{} first {:?} second {:?}", REPEATED_CALL_DIFFERS, a, c);
+                    }
+                }
+                SearchRes::Path(wrap_path!(first))
+            }
             Term::Cycle => SearchRes::Path(wrap_path!(b.search_cycle())),
         }
     }};
@@ -244,8 +259,26 @@ macro_rules! order_body {
             _ => {}
         }
         match cfg.term {
-            OTerm::Nodes => OrderRes::Nodes(o.search_nodes()),
-            OTerm::Edges => OrderRes::Edges(o.search_edges()),
+            OTerm::Nodes => {
+                let first = o.search_nodes();
+                if kind == 0 {
+                    let second = o.search_nodes();
+                    if first.iter().map(|n| *n.key()).collect::<Vec<Key>>() != second.iter().map(|n| *n.key()).collect::<Vec<Key>>() {
+                        panic!("{} search_nodes", REPEATED_CALL_DIFFERS);
+                    }
+                }
+                OrderRes::Nodes(first)
+            }
+            OTerm::Edges => {
+                let first = o.search_edges();
+                if kind == 0 {
+                    let second = o.search_edges();
+                    if first.iter().map(|e| (*e.0.key(), *e.1.key(), e.2)).collect::<Vec<Tri>>() != second.iter().map(|e| (*e.0.key(), *e.1.key(), e.2)).collect::<Vec<Tri>>() {
+                        panic!("{} search_edges", REPEATED_CALL_DIFFERS);
+                    }
+                }
+                OrderRes::Edges(first)
+            }
         }
     }};
     (@tr $o:ident, $cfg:ident, yes) => {
